@@ -16,6 +16,14 @@
 #define OLD(e) __CPROVER_old(e)
 
 /* ---------------------------------------------------------------- grow */
+/* nni_msg_pull_up inserts the message's OWN header into its body: in the unit that
+ * replaces that call the data pointer may point into the (already fresh) message */
+#ifdef VP_INSERT_ALIAS_OK
+#define INSERT_DATA_ALIAS_OK(data, len) (__CPROVER_r_ok((data), (len)))
+#else
+#define INSERT_DATA_ALIAS_OK(data, len) (0)
+#endif
+
 #define GROW_CONTRACT(ch, newsz, headwanted)                                              \
 __CPROVER_requires(CH_GHOST_PRE(ch))                                                      \
 __CPROVER_assigns(*(ch), VP_HEAP_GHOSTS)                                                    \
@@ -88,7 +96,7 @@ __CPROVER_ensures(RV == 0 ==> ((ch)->ch_buf != OLD((ch)->ch_buf) ? VP_HEAP_DELTA
 #define INSERT_CONTRACT(ch, data, len)                                                    \
 __CPROVER_requires(CH_FULL_PRE(ch))                                                       \
 /* data, when given, is a readable region (memcpy is called even for len == 0) */        \
-__CPROVER_requires(((data) == NULL || __CPROVER_is_fresh((data), (len) > 0 ? (len) : 1))) \
+__CPROVER_requires(((data) == NULL || INSERT_DATA_ALIAS_OK(data, len) || __CPROVER_is_fresh((data), (len) > 0 ? (len) : 1))) \
 __CPROVER_requires(CH_GHOST_PRE(ch))                                                      \
 __CPROVER_assigns(*(ch), VP_HEAP_GHOSTS, __CPROVER_object_whole((ch)->ch_buf))              \
 __CPROVER_frees((ch)->ch_buf)                                                             \
@@ -466,16 +474,24 @@ __CPROVER_ensures((OLD(m->m_refcnt.v) > 1 && RV != NULL && g_k < RV->m_body.ch_l
 __CPROVER_ensures((OLD(m->m_refcnt.v) > 1 && RV != NULL && g_hk < RV->m_header_len) ==> HDR(RV)[g_hk] == g_hb)
 ;
 
-/* pull_up: result body = header || body, header empty, result unshared;
- * NULL only on allocation failure */
+/* pull_up (ownership part; C03/C01): the result is unshared with an empty header and
+ * length = header length + body length; on failure (NULL) the ORIGINAL IS STILL THE
+ * CALLER'S (not released: message.h says the caller frees it); on success by copy
+ * exactly one reference on the original is dropped.  (Byte content is not
+ * claimed: two memcpy into one new buffer exceed the tool, see DESIGN section 9.) */
 nni_msg *nni_msg_pull_up(nni_msg *m)
 __CPROVER_requires(__CPROVER_is_fresh(m, sizeof(struct nng_msg)) && m->m_header_len <= MSG_HDRCAP && m->m_refcnt.v >= 1 && CH_FULL_PRE(&m->m_body))
 __CPROVER_requires(CH_GHOST_PRE(&m->m_body) && HDR_GHOST_PRE(m))
 __CPROVER_assigns(*m, VP_HEAP_GHOSTS, __CPROVER_object_whole(m->m_body.ch_buf))
 __CPROVER_frees(m, m->m_body.ch_buf)
-__CPROVER_ensures(RV != NULL ==> (RV->m_header_len == 0 && RV->m_refcnt.v == 1 && RV->m_body.ch_len == OLD(m->m_body.ch_len) + OLD(m->m_header_len)))
-__CPROVER_ensures((RV != NULL && g_hk < OLD(m->m_header_len)) ==> RV->m_body.ch_ptr[g_hk] == g_hb)
-__CPROVER_ensures((RV != NULL && g_k < OLD(m->m_body.ch_len)) ==> RV->m_body.ch_ptr[OLD(m->m_header_len) + g_k] == g_b)
+/* failure: nothing released, nothing changed on the original */
+__CPROVER_ensures(RV == NULL ==> (!__CPROVER_was_freed(m) && !__CPROVER_was_freed(OLD(m->m_body.ch_buf)) && m->m_refcnt.v == OLD(m->m_refcnt.v) && m->m_header_len == OLD(m->m_header_len) && m->m_body.ch_len == OLD(m->m_body.ch_len) && (g_alloc_ok - OLD(g_alloc_ok) == g_free_calls - OLD(g_free_calls))))
+/* in place (unshared, enough room) */
+__CPROVER_ensures(RV == m ==> (OLD(m->m_refcnt.v) == 1 && m->m_refcnt.v == 1 && m->m_header_len == 0 && m->m_body.ch_len == OLD(m->m_body.ch_len) + OLD(m->m_header_len) && CH_FULL_SCALAR(&m->m_body)))
+/* by copy: a new unshared message; one reference on the original dropped (released if it was the last) */
+__CPROVER_ensures((RV != NULL && RV != m) ==> (RV->m_header_len == 0 && RV->m_refcnt.v == 1 && RV->m_body.ch_len == OLD(m->m_body.ch_len) + OLD(m->m_header_len)))
+__CPROVER_ensures((RV != NULL && RV != m && OLD(m->m_refcnt.v) > 1) ==> (!__CPROVER_was_freed(m) && m->m_refcnt.v == OLD(m->m_refcnt.v) - 1))
+__CPROVER_ensures((RV != NULL && RV != m && OLD(m->m_refcnt.v) == 1) ==> __CPROVER_was_freed(m))
 ;
 
 /* clang-format on */
